@@ -53,7 +53,7 @@ structure SizingOk (s : PredSizing) (len : Nat) : Prop where
 theorem predSizing_ok (columns bpc colors : Int) (len : Nat) (s : PredSizing)
     (h : predSizing columns bpc colors len = .ok s) : SizingOk s len := by
   unfold predSizing at h
-  simp only [bind_eq_ok, mulU_eq_ok, ckMul_eq_ok, ckAdd_eq_ok] at h
+  simp only [bind_eq_ok, ckMul_eq_ok, ckAdd_eq_ok] at h
   obtain ⟨prod, ⟨_, hprod⟩, samples, ⟨_, hs⟩, bits, ⟨_, hb⟩, bits7, ⟨_, h7⟩, rowSize, ⟨_, hrs⟩, h⟩ := h
   by_cases hm : (len % rowSize != 0) = true
   · rw [if_pos hm] at h; cases h
